@@ -1142,6 +1142,12 @@ def w11(run, roles):
         procs = [e for k, e, _n in p.effects if k == "yieldfrom" and isinstance(e, ast.Call) and call_name(e) == d]
         evs = [e for k, e, _n in p.effects if k == "yield" and isinstance(e, ast.Call) and call_name(e) == "MarshalEvent"]
         nones = [paths.text(e) for k, e, _n in p.effects if k == "store" and paths.text(e).endswith("= None")]
+        # (... or the member is given as None where the object is built: `T(**{size.name: n, buffer.name: None})`)
+        rv = p.value.elts[1] if isinstance(p.value, ast.Tuple) and len(p.value.elts) == 2 else p.value
+        if isinstance(rv, ast.Call):
+            nones += [norm(k_) for k_ in rv.keywords if k_.arg is not None and isinstance(k_.value, ast.Constant) and k_.value.value is None]
+            nones += [norm(x) for k_ in rv.keywords if k_.arg is None and isinstance(k_.value, ast.Dict) for x in k_.value.values
+                      if isinstance(x, ast.Constant) and x.value is None]
         if len(procs) == 2 and kwarg(procs[1], "count") is not None:
             got = "list payload, count = size" if paths.text(kwarg(procs[1], "count")) == size_sym else \
                 f"list payload, count = {paths.text(kwarg(procs[1], 'count'))}"
